@@ -662,7 +662,10 @@ class QGen:
                 jt = rng.choice(['JOIN', 'JOIN', 'LEFT JOIN', 'INNER JOIN'])
                 prev = rng.choice(trs)
                 on = '%s = %s' % (self.qcol(prev, 'id'), self.qcol(tr, 'id'))
-                if rng.random() < 0.2:
+                if rng.random() < 0.12:
+                    self.features.add('on-single-column')
+                    on = self.col(tr, None, 'tab')
+                elif rng.random() < 0.2:
                     on += ' AND %s > 0' % self.qcol(tr)
                 frm += ' %s %s ON %s' % (jt, tr['sql'], on)
                 trs.append(tr)
@@ -741,6 +744,16 @@ class QGen:
             if rng.random() < self.adv:
                 name = self.single or 'int1'
                 self.features.add('cte=integration')
+            if not self.single and rng.random() < 0.3:
+                # the CTE is called like a real table that the main select also uses, qualified
+                db = rng.choice(['int1', 'int2'])
+                tname = rng.choice(sorted(SCHEMA[db]))
+                other = 'int2' if db == 'int1' else 'int1'
+                src = self.tref(db=other, alias=False)
+                self.features.add('cte-name=table')
+                q = spell(rng, db) if self.spellings else db
+                return 'WITH %s AS (SELECT * FROM %s) SELECT * FROM %s JOIN %s.%s AS u ON %s.id = u.id' % (
+                    tname, src['sql'], tname, q, tname, tname), 'select'
             if rng.random() < 0.5:
                 self.features.add('cte-used')
                 main = 'SELECT * FROM %s' % name
